@@ -5,16 +5,17 @@ From Coq Require Import PeanoNat Arith Lia.
 From AV Require Import Base.Bytes Base.Outcome Hash.HashModel Tree.Heap Tree.Ops Tree.Script Tree.Serialize
   Tree.Inv Tree.InvProofsBase Tree.InvProofsCore Tree.InvProofsTree Tree.InvProofsPrim
   Tree.Files Tree.FilesProofsBase Tree.FilesProofsProj Tree.FilesProofsFrame Tree.FilesProofsOps
-  Tree.FilesProofsSet Tree.FilesProofsHole Tree.FilesProofsAdd Tree.FilesProofsStrip Tree.FilesProofsRemove.
+  Tree.FilesProofsSet Tree.FilesProofsHole Tree.FilesProofsAdd Tree.FilesProofsStrip Tree.FilesProofsRemove Tree.FilesProofsLast.
 Open Scope string_scope.
 Open Scope list_scope.
 Open Scope N_scope.
 
-(* operations whose proof is not finished: they are covered by the correspondence check and the oracle only *)
-Definition Pending10 (w : world) (o : op) : bool :=
+(* operations whose proof is not finished: they are covered by the correspondence check and the oracle only.
+   (remove_file of the last file is proved unless the root's type is a named type, which no real table set has) *)
+Definition Pending10 (T : tables) (w : world) (o : op) : bool :=
   match o with
   | OpMove _ _ | OpMoveAt _ _ _ => true
-  | OpRemoveFile _ _ => last_file w o
+  | OpRemoveFile _ _ => last_file w o && root_named T w o
   | _ => false
   end.
 
@@ -74,7 +75,7 @@ Qed.
 
 (* Core w' is C03's theorem Core_step (Tree/InvProofs.v); it is discharged in Tree/FilesProofsHist.v *)
 Theorem inv_step_core o w r w' :
-  TreeInv w -> Core w' -> FilesInv T w -> Pending10 w o = false -> Known10 w o = false -> Unowned w o = false ->
+  TreeInv w -> Core w' -> FilesInv T w -> Pending10 T w o = false -> Known10 w o = false -> Unowned w o = false ->
   run o w = Val (r, w') -> FilesInv T w'.
 Proof.
   intros TI C' FI HP HK HU H. pose proof TI as (C & _).
@@ -83,7 +84,8 @@ Proof.
   - unfold Known10 in HK. apply Bool.orb_false_iff in HK as (HK & HK3). apply Bool.orb_false_iff in HK as (HK1 & HK2).
     destruct o; cbn [frame_op] in Efo; try discriminate; cbn [Pending10] in HP; try discriminate; unfold run in H; cbn [run_op] in H.
     + apply run_bind_inv in H as (r0 & H). eapply create_file_inv; eauto.
-    + unfold wunit in H. apply run_bind_inv in H as (r0 & H). eapply remove_file_inv; eauto.
+    + unfold wunit in H. apply run_bind_inv in H as (r0 & H).
+      destruct (last_file w (OpRemoveFile m f)) eqn:EL; [eapply remove_file_last_inv; eauto | eapply remove_file_inv; eauto].
     + unfold wunit in H. apply run_bind_inv in H as (r0 & H). eapply add_to_file_inv; eauto.
     + unfold wunit in H. apply run_bind_inv in H as (r0 & H). eapply remove_from_file_inv; eauto.
 Qed.
